@@ -373,7 +373,10 @@ ScopeInputs ==
 
 \* -- dup (C14): repeated outputs within one statement and across statements, any spelling
 DupNames == {"d", "e"}
+\* (an absolute name as well: a doubled leading separator and a cancelled first component
+\* denote the same file)
 OutSpell == {Path(pre, P(nm)) : pre \in (IF Quick THEN {"", "zz/../", "zz\\..\\"} ELSE Prefixes), nm \in DupNames}
+            \cup {Path(pre, P("/q")) : pre \in {"", "/", "/zz/.."}}
 OutLists == UNION {[1..n -> OutSpell] : n \in 1..(IF Quick THEN 3 ELSE 4)}
 
 DupOne(outs, k) ==      \* one statement, the first k outputs explicit, the rest implicit
